@@ -1,6 +1,7 @@
 import HappyModel.C14.Driver
 import HappyModel.C15.Spec
 import HappyModel.C15.Sync
+import HappyModel.C15.Phases
 /-! Line-protocol driver for C15 (other side: `hv/props/c15.py`). -/
 namespace HappyModel.C15.Driver
 open HappyModel.Proto HappyModel.C14 HappyModel.C14.Driver HappyModel.C15
@@ -78,10 +79,82 @@ def judge (body : List String) : List String :=
     | some sig => [s!"viol {sig}"]
   | _, _, _ => ["viol wal/malformed-judge-input"]
 
+/-! ### sequences of crashes (`crashes` / `judge-crashes`)
+
+model input: the `cfg`/`op` lines (operation ids `1000·phase + 100·worker + index`), then per phase its `sched`
+lines closed by a `crashpoint` line.  Output / judge input per phase: `phase <i>`, the `op` and `w` lines of the
+phase's operations, `synced`, `appended`, `r1`, `walsize`, `r2`, `r3`, `levels`. -/
+
+def splitPhases (body : List String) : List (List Nat) :=
+  let r := body.foldl (fun (acc : List (List Nat) × List Nat) l =>
+    match toks l with
+    | "sched" :: ids => (acc.1, acc.2 ++ nats ids)
+    | ["crashpoint"] => (acc.1 ++ [acc.2], [])
+    | _ => acc) ([], [])
+  r.1
+
+def phaseLines (inp : Input) (i : Nat) (o : PhaseOut) : List String :=
+  let mine := (sortFrames o.y.frames).filter fun f => f.id / 1000 == i
+  [s!"phase {i}"] ++ mine.filterMap frameLine ++ mine.filterMap (wLine inp o.done) ++
+  [ s!"synced {o.y.st.synced}", s!"appended {o.y.st.nextSeq - 1}",
+    readsLine "r1" inp.nkeys o.s1, s!"walsize {o.s1.wal.length}",
+    readsLine "r2" inp.nkeys o.s2, readsLine "r3" inp.nkeys o.s3,
+    "levels " ++ joinSp (o.s3.levels.map fun l => s!"{l.length}:{keyCount l}") ]
+
+def runCrashes (body : List String) : List String :=
+  let inp := parse body
+  let outs := runPhases inp.cfg { inp.sys with st := St.init inp.cfg inp.oracle } (splitPhases body)
+  (outs.zipIdx.map fun (o, i) => phaseLines inp i o).flatten
+
+/-- the judge's view of one phase: the lines between two `phase` markers -/
+def phaseObsOf (inp : Input) (ls : List String) : PhaseObs :=
+  let ws : List WRec := ls.filterMap fun l =>
+    match toks l with
+    | ["w", id, seq, b, e, _] =>
+      match inp.ops.lookup (natD id) with
+      | some (.put k v) => some ⟨natD id, k, some v, natD seq, natD b, nat? e⟩
+      | some (.del k) => some ⟨natD id, k, none, natD seq, natD b, nat? e⟩
+      | _ => none
+    | _ => none
+  let syncDone : List Nat := ls.filterMap fun l =>
+    match toks l with
+    | ["w", id, _, _, _, "1"] => some (natD id)
+    | _ => none
+  let get (tag : String) : List (Option Nat) :=
+    (ls.findSome? fun l => match toks l with
+      | t :: rest => if t == tag then some (parseReads rest) else none
+      | [] => none).getD []
+  let synced := (ls.findSome? fun l => match toks l with
+      | ["synced", n] => some (natD n)
+      | _ => none).getD 0
+  ⟨ws, syncDone, synced, get "r1", get "r2", get "r3"⟩
+
+def splitAtPhase (body : List String) : List (List String) :=
+  let r := body.foldl (fun (acc : List (List String) × Option (List String)) l =>
+    match toks l with
+    | ["phase", _] => (match acc.2 with | some cur => acc.1 ++ [cur] | none => acc.1, some [])
+    | _ => (acc.1, acc.2.map (· ++ [l]))) ([], none)
+  match r.2 with
+  | some cur => r.1 ++ [cur]
+  | none => r.1
+
+def judgeCrashes (body : List String) : List String :=
+  let inp := parse body
+  let every := match inp.cfg.wal with
+    | some .every => true
+    | _ => false
+  let obs := (splitAtPhase body).map (phaseObsOf inp)
+  if obs.isEmpty then ["viol wal/malformed-judge-input"] else
+  match judgePhases every inp.nkeys (List.replicate inp.nkeys none) [] 0 obs with
+  | none => ["ok"]
+  | some sig => [s!"viol {sig}"]
+
 def handle (hdr : List String) (body : List String) : List String :=
   match hdr with
   | ["crash"] => runCrash body
   | ["judge-crash"] => judge body
+  | ["crashes"] => runCrashes body
+  | ["judge-crashes"] => judgeCrashes body
   | _ => ["bad-mode"]
 
 end HappyModel.C15.Driver
